@@ -76,7 +76,7 @@ func (wtr *XMLWtr) container(lvl int) node.Node {
 			return nil, nil
 		}
 		if !meta.IsList(r.Meta) {
-			if err = wtr.beginContainer(wtr.ident(r.Path)); err != nil {
+			if err = wtr.beginContainer(wtr.ident(r.Path) + wtr.nsChangeAttr(r.Path)); err != nil {
 				return nil, err
 			}
 		}
@@ -110,7 +110,8 @@ func (wtr *XMLWtr) container(lvl int) node.Node {
 		return nil
 	}
 	s.OnField = func(r node.FieldRequest, hnd *node.ValueHandle) (err error) {
-		ns := ""
+		// declared only when module differs from the parent's
+		ns := wtr.nsChange(r.Path)
 
 		if l, listable := hnd.Val.(val.Listable); listable {
 			for i := 0; i < l.Len(); i++ {
@@ -132,7 +133,7 @@ func (wtr *XMLWtr) container(lvl int) node.Node {
 
 		ident := wtr.ident(r.Selection.Path)
 
-		if err = wtr.beginContainer(ident); err != nil {
+		if err = wtr.beginContainer(ident + wtr.nsChangeAttr(r.Selection.Path)); err != nil {
 			return
 		}
 		return wtr.container(lvl + 1), r.Key, nil
@@ -153,6 +154,25 @@ func (wtr *XMLWtr) getXmlns(p *node.Path) string {
 		ns = meta.OriginalModule(p.Meta).Namespace()
 	}
 	return ns
+}
+
+// nsChange is the namespace of p's module when it is not the module of p's parent, i.e. when
+// the element needs its own xmlns. Empty otherwise.
+func (wtr *XMLWtr) nsChange(p *node.Path) string {
+	if p.Parent == nil || p.Parent.Meta == nil {
+		return ""
+	}
+	if meta.OriginalModule(p.Meta) == meta.OriginalModule(p.Parent.Meta) {
+		return ""
+	}
+	return wtr.getXmlns(p)
+}
+
+func (wtr *XMLWtr) nsChangeAttr(p *node.Path) string {
+	if ns := wtr.nsChange(p); ns != "" {
+		return " xmlns=" + "\"" + ns + "\""
+	}
+	return ""
 }
 
 func (wtr *XMLWtr) beginContainer(ident string) (err error) {
